@@ -556,6 +556,7 @@ class Samples(BaseSamples):
             )
             if self.log_evidence_error is not None
             else None,
+            dtype=self.dtype,
         )
 
     def to_numpy(self):
